@@ -401,6 +401,9 @@ def main_property(prop, tier, cells, meta, jobs=None):
         for c in sel:
             c.timeout_s = min(c.timeout_s, cap)      # bounds the wall time of one thorough run (cells run in parallel)
     budget = None
+    if tier == 'thorough':
+        # wall budget of one thorough run (default 50 min): cells not finished / not started by then are reported as timeouts (inconclusive)
+        budget = int(os.environ.get('VERIF_THOROUGH_BUDGET', '3000') or 3000)
     if tier == 'quick':
         # the quick command is meant to run on every change: every cell is capped and the whole run has a wall budget;
         # cells still running at the budget are stopped and reported as timeouts (inconclusive), never as success
